@@ -726,13 +726,13 @@ def batch_run_docs(env, uid, ops, keyof, rng=None, pages=False, legacy_meta=Fals
     (list of (name, doc), per-stream list of event dicts).  Stream d has internal keys x, y; resource r feeds external
     key keyof[r-1] of stream 1 (hdf5, one number per index)."""
     import event_model
-    nstreams = max([o["d"] for o in ops if o["op"] == "event"] + [1])
+    nstreams = max([o["d"] for o in ops if o["op"] in ("event", "redesc")] + [1])
     used_res = sorted({o["r"] for o in ops if o["op"] == "stream_datum"})
     used_keys = sorted({keyof[r - 1] for r in used_res})
     start = {"uid": uid, "time": 1700000000.5, "scan_id": 7, "plan_name": "verif", "detectors": ["det1"], "num_points": 3,
              "sample": {"name": "s", "temperature": 1.5}}
     docs = [("start", start)]
-    duids = {}
+    duids, ddocs = {}, {}
     for d in range(1, nstreams + 1):
         dk = {f"x{d}": {"source": "sim", "dtype": "number", "shape": [], "dtype_numpy": "<f8", "object_name": f"det{d}"},
               f"y{d}": {"source": "sim", "dtype": "integer", "shape": [], "dtype_numpy": "<i8", "object_name": f"det{d}"}}
@@ -741,9 +741,10 @@ def batch_run_docs(env, uid, ops, keyof, rng=None, pages=False, legacy_meta=Fals
                 dk[f"key{k}"] = {"source": "file", "dtype": "number", "shape": [1], "dtype_numpy": "<f8", "external": "STREAM:",
                                  "object_name": "det1"}
         duids[d] = f"{uid}-desc{d}"
-        docs.append(("descriptor", {"uid": duids[d], "run_start": uid, "time": 1700000001.0 + d, "name": STREAM_NAMES[d - 1],
-                                    "data_keys": dk, "object_keys": {f"det{d}": list(dk)},
-                                    "configuration": {f"det{d}": {"data": {}, "timestamps": {}, "data_keys": {}}}, "hints": {}}))
+        ddocs[d] = {"uid": duids[d], "run_start": uid, "time": 1700000001.0 + d, "name": STREAM_NAMES[d - 1],
+                    "data_keys": dk, "object_keys": {f"det{d}": list(dk)},
+                    "configuration": {f"det{d}": {"data": {}, "timestamps": {}, "data_keys": {}}}, "hints": {}}
+        docs.append(("descriptor", ddocs[d]))
     for r in used_res:
         k = keyof[r - 1]
         docs.append(("stream_resource", {"uid": f"{uid}-sr{r}", "data_key": f"key{k}", "mimetype": HDF5, "run_start": uid,
@@ -751,7 +752,7 @@ def batch_run_docs(env, uid, ops, keyof, rng=None, pages=False, legacy_meta=Fals
                                          "parameters": {"dataset": f"/entry/data/key{k}", "chunk_shape": [100]}}))
     nev = {d: 0 for d in range(1, nstreams + 1)}
     events = {d: [] for d in range(1, nstreams + 1)}
-    nsd = 0
+    nsd = nre = 0
     body = []
     for o in ops:
         if o["op"] == "event":
@@ -763,6 +764,16 @@ def batch_run_docs(env, uid, ops, keyof, rng=None, pages=False, legacy_meta=Fals
                   "filled": {}}
             events[d].append(ev)
             body.append(("event", ev))
+        elif o["op"] == "redesc":
+            # the stream's device was re-configured mid-run: a new descriptor for the same stream; later events refer to it
+            d = o["d"]
+            nre += 1
+            nd = copy.deepcopy(ddocs[d])
+            nd["uid"] = duids[d] = f"{uid}-desc{d}-r{nre}"
+            nd["time"] = 1700000005.0 + nre
+            nd["configuration"] = {f"det{d}": {"data": {"exposure": 0.1 * nre}, "timestamps": {"exposure": 1700000004.0 + nre},
+                                                "data_keys": {"exposure": {"source": "sim", "dtype": "number", "shape": []}}}}
+            body.append(("descriptor", nd))
         elif o["op"] == "stream_datum":
             nsd += 1
             body.append(("stream_datum", {"uid": f"{uid}-sr{o['r']}/{nsd}", "stream_resource": f"{uid}-sr{o['r']}", "descriptor": duids[1],
@@ -860,6 +871,8 @@ def execute_batch_run(env, uid, ops, keyof, batch, nres=3, rng=None, pages=False
         if o["op"] == "event":
             nev[o["d"]] = nev.get(o["d"], 0) + 1
             trace.append({"op": "event", "d": o["d"], "s": nev[o["d"]], "r": 0, "a": 0, "b": 0})
+        elif o["op"] == "redesc":
+            trace.append({"op": "redesc", "d": o["d"], "s": 0, "r": 0, "a": 0, "b": 0})
         else:
             trace.append({"op": "stream_datum", "d": 0, "s": 0, "r": o["r"], "a": o["a"], "b": o["b"]})
     trace.append({"op": "stop", "d": 0, "s": 0, "r": 0, "a": 0, "b": 0})
@@ -890,6 +903,8 @@ def random_batch_ops(rng, max_ev=8, max_sd=6, nres=3):
     for t in todo:
         if t == "e":
             ops.append({"op": "event", "d": rng.randint(1, nstreams)})
+            if rng.random() < 0.2:      # the stream is re-described (configuration changed) between two of its events
+                ops.append({"op": "redesc", "d": ops[-1]["d"]})
         else:
             r = rng.randint(1, res_used)
             ln = rng.choice([1, 1, 2, 3])
